@@ -281,7 +281,7 @@ func vpC06Break(t *rapid.T, tx *SignedTransaction) string {
 			tx.References = append(tx.References, fill(i))
 		}
 	case "index=1025":
-		ensureIn().Index = uint(rapid.SampledFrom([]int{1025, 1026, 4096, 65535}).Draw(t, "bad_index"))
+		ensureIn().Index = uint(rapid.SampledFrom([]int{1025, 1026, 4096, 65535, 65536, 65536 + 3, 65536 + 1024, 65536 + 1025, 1 << 17, 1<<32 + 7, 1 << 48}).Draw(t, "bad_index"))
 	case "sigmaps=257":
 		tx.AggregatedSignature = nil
 		sig := &crypto.Signature{1}
